@@ -63,9 +63,24 @@ func genC15(r *rt.Rand, tier string, idx int) *world.Scenario {
 		if r.Chance(0.1) {
 			cl.Ops = append(cl.Ops, world.Op{K: "sleep", Ms: int64(200 + r.Intn(2500))})
 		}
+		if sc.Extra["standby"] != 0 && r.Chance(0.15) {
+			// the standby serves a follower read: it adopts the leader's revision (and must not keep it when it takes over)
+			cl.Ops = append(cl.Ops, world.Op{K: "waitcommitted"}, world.Op{K: "followersync", Node: 1, W: 0})
+		}
+	}
+	if idx%180 == 13 {
+		// a leader that hands out revisions much faster than the clock runs (tens of thousands of writes
+		// within one simulated second), then a leader change
+		sc.Class += "+write-burst"
+		cl.Ops = append(cl.Ops, world.Op{K: "burst", Key: keys[0], Val: "x", Limit: int64(25000 + r.Intn(10000))})
+		sc.Inactive = []string{"kv.get.ret", "kv.commit.ret", "kv.parts", "seq.cache", "seq.bcast", "seq.sent", "hub.recv", "client.next"}
+		sc.Stick = 0.9
 	}
 	// the old leader stops after an arbitrary request
 	at := r.Intn(len(cl.Ops) + 1)
+	if idx%180 == 13 {
+		at = len(cl.Ops) // after the burst
+	}
 	ops := append([]world.Op{}, cl.Ops[:at]...)
 	ops = append(ops, world.Op{K: "crash", Node: 0})
 	sc.Clients = []world.Client{{Ops: ops}}
@@ -79,6 +94,9 @@ func genC15(r *rt.Rand, tier string, idx int) *world.Scenario {
 		}
 	}
 	sc.MaxSteps = 60000
+	if idx%180 == 13 {
+		sc.MaxSteps = 2000000
+	}
 	return sc
 }
 
